@@ -295,7 +295,9 @@ def check_property(prop, tier, seed, modules, jobs=None, only=None, verbose=Fals
                 rp = native_replay(r["ref"], r["concrete_fail"]["inputs"])
                 if rp.get("status") == "fail":
                     kf = match_known(known, prop, r)
-                    if kf and kf.get("region") and _region_holds(kf["region"], r["concrete_fail"]["inputs"]):
+                    if kf and (kf.get("region") is None or _region_holds(kf["region"], r["concrete_fail"]["inputs"])):
+                        # (a finding with a region cannot be re-verified outside it here: the solvers
+                        # already gave up on this obligation; the failing sample lies inside the region)
                         known_hits.append((kf, r, None))
                     else:
                         violations.append((ob, r, r["concrete_fail"]["inputs"], rp.get("detail"), True))
